@@ -86,6 +86,24 @@ pub fn run(spec: &ScenarioSpec, ctx: &mut Ctx) -> Result<(), Violation> {
         (Res::Caught(c), _) => return Err(caught_violation(P, "slippi::write", c)),
     }
     ctx.check();
+    // the same writers under their module paths (`slippi::ser::write`, `peppi::ser::write` are public too):
+    // an application may import either name
+    if newer {
+        let mut sink = crate::simio::SimSink::new(&SinkSpec::default());
+        match crate::report::guarded(|| peppi::io::slippi::ser::write(&mut sink, &game)) {
+            Ok(Err(_)) => {}
+            Ok(Ok(())) => return Err(Violation::new(P, "unexpected-ok", "slippi::ser::write", format!("version {}.{}.{} exceeds 3.16.0 but the .slp writer, called as slippi::ser::write, did not refuse", ver.0, ver.1, ver.2))),
+            Err(c) => return Err(caught_violation(P, "slippi::ser::write", &c)),
+        }
+        let g2 = expect_ok(P, "slippi::read(2)", read_slp_noopts(&m.bytes, &StreamSpec::default(), &[]).res)?;
+        let mut sink = crate::simio::SimSink::new(&SinkSpec::default());
+        match crate::report::guarded(|| peppi::io::peppi::ser::write(&mut sink, g2, None)) {
+            Ok(Err(_)) => {}
+            Ok(Ok(())) => return Err(Violation::new(P, "unexpected-ok", "peppi::ser::write", format!("version {}.{}.{} exceeds 3.16.0 but the .slpp writer, called as peppi::ser::write with no options, did not refuse", ver.0, ver.1, ver.2))),
+            Err(c) => return Err(caught_violation(P, "peppi::ser::write", &c)),
+        }
+        ctx.checks(2);
+    }
     let w2 = write_slpp(game, &spec.sink, spec.compression);
     note_write(ctx, &w2);
     match (&w2.res, newer) {
